@@ -30,8 +30,8 @@ impl<V> FlexChild<V> {
 
     pub fn flex(self, flex: f64) -> Self {
         Self {
-            // only positive factors make a flex child (same rule as `Flex::push_child_ext`)
-            flex: (flex > 0.0).then_some(flex),
+            // only positive finite factors make a flex child (same rule as `Flex::push_child_ext`)
+            flex: (flex.is_finite() && flex > 0.0).then_some(flex),
             ..self
         }
     }
@@ -220,7 +220,7 @@ impl<'a> Flex<'a> {
     ) {
         self.children.push(FlexChild {
             view: child.into_view().boxed(),
-            flex: flex.and_then(|flex| (flex > 0.0).then_some(flex)),
+            flex: flex.and_then(|flex| (flex.is_finite() && flex > 0.0).then_some(flex)),
             face,
             align,
         });
@@ -280,7 +280,7 @@ impl<'a> Flex<'a> {
                             .get("flex")
                             .map(f64::deserialize)
                             .transpose()?
-                            .and_then(|flex| (flex > 0.0).then_some(flex));
+                            .and_then(|flex| (flex.is_finite() && flex > 0.0).then_some(flex));
                         let align = value
                             .get("align")
                             .map(Align::deserialize)
